@@ -221,6 +221,12 @@ struct Requests(Vec<Entity>);
 
 /// Real handshake between a server built from `s` and a client built from `c`.
 fn handshake(s: &[usize], c: &[usize]) -> Result<(), Bad> {
+    handshake_with(s, c, false)?;
+    // the transport reports `Connecting` for a few frames before `Connected`
+    handshake_with(s, c, true)
+}
+
+fn handshake_with(s: &[usize], c: &[usize], slow: bool) -> Result<(), Bad> {
     let mut server = build(s);
     let mut client = build(c);
     server.init_resource::<Requests>();
@@ -236,6 +242,12 @@ fn handshake(s: &[usize], c: &[usize]) -> Result<(), Bad> {
     let by_conn = server.world_mut().spawn(ConnectedClient { max_size: 1200 }).id();
     bystander.world_mut().resource_mut::<RepliconClient>().set_status(RepliconClientStatus::Connected);
     let conn = server.world_mut().spawn(ConnectedClient { max_size: 1200 }).id();
+    if slow {
+        client.world_mut().resource_mut::<RepliconClient>().set_status(RepliconClientStatus::Connecting);
+        for _ in 0..4 {
+            client.update();
+        }
+    }
     client.world_mut().resource_mut::<RepliconClient>().set_status(RepliconClientStatus::Connected);
     let mut to_client: Vec<(usize, bevy_replicon::bytes::Bytes)> = Vec::new();
     let mut to_bystander: Vec<(usize, bevy_replicon::bytes::Bytes)> = Vec::new();
@@ -266,7 +278,12 @@ fn handshake(s: &[usize], c: &[usize]) -> Result<(), Bad> {
         }
     }
     let authorized = server.world().entity(conn).contains::<AuthorizedClient>();
-    let bad = |oracle: &'static str, detail: String| Bad { oracle, a: s.to_vec(), b: c.to_vec(), detail };
+    let bad = |oracle: &'static str, detail: String| Bad {
+        oracle,
+        a: s.to_vec(),
+        b: c.to_vec(),
+        detail: if slow { format!("{detail} (client status went through Connecting for four frames)") } else { detail },
+    };
     if authorized != same {
         return Err(bad(
             "authorization",
